@@ -153,12 +153,19 @@ def run_case(ctx, nix, np, path, rng, rep):
                 bad("read:raises_%s:%s" % (type(e).__name__, ctxt), after=tag, error=repr(e))
 
         check("create:" + variant)
+        # two long-lived handles of the same frame (both have read already): every write goes through one of them,
+        # every check reads through one of them - what was written must be what is read, whichever handle is used
+        handles = [df, b.data_frames["df"]]
+        df = handles[1]
+        check("second_handle")
         OPS = ["append_rows", "append_column", "write_rows", "write_column_name", "write_column_idx", "write_cell_pos",
                "write_cell_name", "units", "reopen", "refused"]
         for step in range(rng.randint(1, 12)):
             op = rng.choice(OPS)
             kinds.append(op)
             ctxt = "+".join(sorted(flags)) or "plain"
+            hi = rng.randrange(2)
+            df = handles[hi]
             try:
                 if op == "append_rows":
                     new = [mkrow() for _ in range(rng.randint(1, 3))]
@@ -230,6 +237,8 @@ def run_case(ctx, nix, np, path, rng, rep):
                     st["f"] = nix.File.open(path, nix.FileMode.ReadWrite)
                     b = st["f"].blocks[0]
                     df = b.data_frames[0]
+                    handles = [df, b.data_frames["df"]]
+                    handles[1][:] if len(handles[1]) else None
                 elif op == "refused":
                     k = rng.choice(["rows_len", "col_len", "unknown_col", "oob_row", "dup_col"])
                     kinds[-1] = "refused:" + k
@@ -252,6 +261,10 @@ def run_case(ctx, nix, np, path, rng, rep):
             except Exception as e:
                 bad("%s:raises_%s:%s" % (op, type(e).__name__, ctxt), error=repr(e))
                 break
+            if op != "reopen":
+                rh = rng.randrange(2)
+                ctx.count("read_through_%s_handle" % ("writing" if rh == hi else "other"))
+                df = handles[rh]
             check(kinds[-1])
         return kinds, cols, variant, bool(rows)
     finally:
